@@ -1415,13 +1415,23 @@ impl<'a, 'b, W: Write> Serializer for &'a mut YamlSerializer<'b, W> {
             let inline_first = (!self.at_line_start)
                 && self.after_dash_depth.is_some()
                 && !self.pending_space_after_colon;
+            // The compact form can only be continued when one indentation step is as wide as
+            // "- " (the following inner dashes are written at `indent_step * depth`). With any
+            // other step the nested sequence starts on its own line instead:
+            // -
+            //     - 1
+            //     - 2
+            let nested_on_own_line = inline_first && self.indent_step != 2;
             // If we are a mapping value (space after colon was pending), we will handle
             // the newline later in SeqSer::serialize_element to keep empty sequences inline.
             // An anchor ends the current line (`- &a1`), so the first inner dash can then no
             // longer stay inline: it starts a new, indented line like the following ones.
             let anchor_ends_line = self.pending_anchor_id.is_some();
             self.write_anchor_for_complex_node()?;
-            if inline_first && anchor_ends_line {
+            if nested_on_own_line && !anchor_ends_line {
+                self.newline()?;
+                self.pending_inline_map = false;
+            } else if inline_first && anchor_ends_line {
                 // at_line_start was set by the newline after the anchor; keep it and drop
                 // the parent's "inline the first child" hint.
                 self.pending_inline_map = false;
